@@ -7,7 +7,12 @@
 (* TLC judges the rows against Packing: the limits the code derives are the  *)
 (* specification's, the split obeys the envelope, both APIs deliver.          *)
 EXTENDS Packing, Json, IOUtils
-Rows == JsonDeserialize(IOEnv.OBS_FILE)
+Obs == JsonDeserialize(IOEnv.OBS_FILE)
+Rows == Obs.rows
+\* Obs.limits: <<mtu, maxpayload, maxfrag, maxsize, recvsize>> measured after HISTORIES of Packet.setMTU calls that end in mtu
+\* (the configured MTU must govern, whatever was configured before)
+LimitsOK == \A k \in DOMAIN Obs.limits : LET x == Obs.limits[k] IN
+               x[2] = MaxPayload(x[1]) /\ x[3] = MaxFrag(x[1]) /\ x[4] = MaxSize(x[1]) /\ x[5] = x[1] + 512
 ASSUME Len(Rows) > 0
 VARIABLE i
 Chunk == 200
@@ -23,6 +28,8 @@ RowOK(r) ==
   /\ r.maxdg <= MaxSize(r.mtu)                                                                       \* C09 datagram size
   /\ r.left = 0
 Range == ((i - 1) * Chunk + 1)..(IF i * Chunk < Len(Rows) THEN i * Chunk ELSE Len(Rows))
-AllOK == \A k \in Range : RowOK(Rows[k])
-Where == [i |-> i, bad |-> {Rows[k] : k \in {x \in Range : ~RowOK(Rows[x])}}]
+AllOK == (\A k \in Range : RowOK(Rows[k])) /\ (i = 1 => LimitsOK)
+Where == [i |-> i, bad |-> {Rows[k] : k \in {x \in Range : ~RowOK(Rows[x])}},
+          badlimits |-> IF i = 1 THEN {Obs.limits[k] : k \in {x \in DOMAIN Obs.limits : LET y == Obs.limits[x] IN
+                                          ~(y[2] = MaxPayload(y[1]) /\ y[3] = MaxFrag(y[1]) /\ y[4] = MaxSize(y[1]) /\ y[5] = y[1] + 512)}} ELSE {}]
 =============================================================================
